@@ -61,6 +61,12 @@ class BudgetExceeded(SimFailure):
   kind = 'budget'
 
 
+class WallExceeded(SimFailure):
+  """The run used more real time than allowed (an overloaded machine): the run
+  is cut and counted as inconclusive - neither a pass nor a violation."""
+  kind = 'wall'
+
+
 class InvariantViolation(SimFailure):
   kind = 'invariant'
 
@@ -222,6 +228,8 @@ class Sim:
     self.jumps = 0
     self.invariants = []
     self.real_timeout = real_timeout
+    self.wall_limit = None      # real seconds per run; None = unlimited
+    self.wall_t0 = _real_perf_counter()
     self.repo_prefix = repo_prefix
     self.fine = False          # function-entry pre-emption on?
     self.fine_yields = 0
@@ -346,6 +354,11 @@ class Sim:
     if self.steps > self.max_steps:
       self.stop_world(BudgetExceeded(
           f'step budget {self.max_steps} exceeded', self.blocked_summary()))
+    if (self.wall_limit and not self.steps & 1023
+        and _real_perf_counter() - self.wall_t0 > self.wall_limit):
+      self.stop_world(WallExceeded(
+          f'{self.wall_limit:.0f} s of real time used after {self.steps} steps',
+          {}))
     if self.step_waits:
       self._fire_step_waits()
     if self.pred_waits:
